@@ -710,6 +710,13 @@ class StmtMixin:
                     raise Unsupported(f"loop-carried local {name} is None before the loop: declare its type in the sidecar")
                 hst.locals[name] = fresh(t, name)
                 self.typing_facts(hst, hst.locals[name]) if not isinstance(t, TTuple) else None
+            elif self.local_decl(name) is not None and not name.startswith("$"):
+                # assigned inside the loop only, declared in the sidecar: an arbitrary value at the loop head
+                # (a read before the first assignment would be an UnboundLocalError, which is not modelled)
+                t = self.local_decl(name)
+                hst.locals[name] = fresh(t, name)
+                self.typing_facts(hst, hst.locals[name]) if not isinstance(t, TTuple) else None
+                self.note_assumption(f"local {name} is read only after it has been assigned (UnboundLocalError not modelled)")
         self._cur_loop_head = head
         self.havoc_heap_for_loop(s, body, st, hst, spec)
         self._havoc_index(s, spec, ordinal, hst)
@@ -958,6 +965,11 @@ class StmtMixin:
 
             def visit_Lambda(self, n):
                 pass
+
+            def visit_Yield(self, n):
+                # a yield appends to the generator's list of yielded values
+                out.append(("content", ast.Name(id="$yield", ctx=ast.Load()), True))
+                self.generic_visit(n)
 
         for stmt in body:
             Vis().visit(stmt)
